@@ -242,7 +242,13 @@ impl Session {
             resolver.verif_seed(s.addr, s.dns_entry(setup.lookup_as_info, true));
         }
         let geoip = match &mmdb_path {
-            Some(p) => GeoIpLookup::from_file(p, "en".to_string()).map_err(|e| format!("mmdb: {e:#}"))?,
+            Some(p) => {
+                // the reader holds the whole file in memory: remove the file straight away, so that a
+                // run which is killed (watchdog, abort inside a child) leaves nothing behind in /tmp
+                let r = GeoIpLookup::from_file(p, "en".to_string());
+                let _ = std::fs::remove_file(p);
+                r.map_err(|e| format!("mmdb: {e:#}"))?
+            }
             None => GeoIpLookup::empty(),
         };
         let ports = match setup.protocol {
